@@ -8,7 +8,7 @@ LEAN_MODULES = ["VpnCloud.Proofs.C08", "VpnCloud.Proofs.C08Node", "VpnCloud.Proo
 THEOREMS = ["VpnCloud.Proofs.C08." + n for n in ("node_reject_pure", "unknown_sender_ignored")] + [
             "VpnCloud.Proofs.C08Node.handleNet_no_panic", "VpnCloud.Proofs.C08Node.handleIface_no_panic", "VpnCloud.Proofs.C08Node.housekeep_no_panic", "VpnCloud.Proofs.C08Node.connect_no_panic", "VpnCloud.Proofs.C08Node.wf_reach", "VpnCloud.Proofs.C08Node.never_panics", "VpnCloud.Proofs.C08Node.never_panics'", "VpnCloud.Proofs.C08Node.own_seals_nonempty"]
 THEOREMS = THEOREMS + ["VpnCloud.Proofs.C02More." + n for n in ('rejected_no_state', 'sequence_no_state', 'sequence_no_state_reach', 'nodup_reach', 'allRejected_of_forall')]
-THEOREMS = THEOREMS + ["VpnCloud.Proofs.GuardsUsed." + n for n in ('datagramTooShort_boundary', 'keyIdInvalid_boundary')]
+THEOREMS = THEOREMS + ["VpnCloud.Proofs.GuardsUsed." + n for n in ('datagramTooShort_boundary', 'keyIdInvalid_boundary', 'rotMsgStale_boundary')]
 THEOREMS = THEOREMS + ["VpnCloud.Proofs.RotPanic." + n for n in ('keyholder_can_panic', 'panic_needs_session_seal', 'outsider_cannot_reach_site', 'plain_session_cannot_reach_site', 'outsider_cannot_panic_node', 'own_rotation_messages_valid', 'own_rotation_seals_valid')]
 RULE = ("suite node: receiver states {unknown sender, pending as initiator, pending as responder, established with lingering handshake} x datagram lengths 0..80 (all in thorough) with structured "
         "first bytes (0xff marker, key ids, message types) x random bodies; truncations, length-field corruptions and bit flips of genuine handshake / data / node-info datagrams replayed from every "
